@@ -226,6 +226,12 @@ def lazy_cfg(threads, defects=()):
             % (", ".join(map(str, threads)), tla_value(set(defects))))
 
 
+def disp_cfg(threads, defects=()):
+    return ("INIT Init\nNEXT Next\nCONSTANTS Threads = {%s}\n Scenarios <- Scen\n Defects = %s\n Keys = {1, 2}\n"
+            "INVARIANT Linearizable\nINVARIANT NothingLost\nINVARIANT EntriesStay\nINVARIANT NoDeadlock\nCHECK_DEADLOCK FALSE\n"
+            % (", ".join(map(str, threads)), tla_value(set(defects))))
+
+
 def c03(tier, seed):
     quick = tier == "quick"
     sc2 = ["2:i1|r1", "2:i2|r2,a", "2:a,v|r1", "2:r1|r1", "2:p,o1|r1,e", "2:v|r2,a", "2:i1,v|r1,a", "2:a,r10|v", "1:r1,e|a,e", "2:f|i2,r1", "0:a,r10|e,v",
@@ -243,7 +249,9 @@ def c03(tier, seed):
               # the SpinLock policy mutex refines the `mtx` abstraction the other models use
               {"module": "SpinLock", "tag": "spinlock", "cfg": sl_cfg([1, 2, 3], 2 if quick else 3)},
               # the lazily created per-prototype lists of the heterogeneous classes (double-checked creation under callbackListListMutex)
-              {"module": "LazySlotMC", "tag": "lazy-slot", "cfg": lazy_cfg([1, 2] if quick else [1, 2, 3])}]
+              {"module": "LazySlotMC", "tag": "lazy-slot", "cfg": lazy_cfg([1, 2] if quick else [1, 2, 3])},
+              # the dispatcher's event -> list map: find-or-create and append under listenerMutex, lookups that hand out a pointer and release it
+              {"module": "ConcDispMC", "tag": "dispatcher-map", "cfg": disp_cfg([1, 2] if quick else [1, 2, 3])}]
     if not quick:
         models.append({"module": "ConcCLMC", "tag": "3threads-1call", "cfg": cc_cfg([1, 2, 3], "ScenSet1"), "heap": "16g"})
         models.append({"module": "SpinLock", "tag": "spinlock-4threads", "cfg": sl_cfg([1, 2, 3, 4], 2)})
@@ -256,7 +264,9 @@ def c03(tier, seed):
             "stress_runners": STRESS_CC, "stress_scenarios": stress_sc,
             "inductive": [{"module": "SpinLockInd", "steps": [("IndInit", "IndInv", 0), ("IndInv", "IndInv", 1), ("IndInv", "MutualExclusion", 0)]}],
             "corpus": [], "model_defects": [{"module": "SpinLock", "cfg": sl_cfg([1, 2, 3], 2, defects=["cas_stale"]), "defect": "cas_stale"},
-                              {"module": "LazySlotMC", "cfg": lazy_cfg([1, 2], defects=["no_recheck"]), "defect": "no_recheck"}],
+                              {"module": "LazySlotMC", "cfg": lazy_cfg([1, 2], defects=["no_recheck"]), "defect": "no_recheck"},
+                              {"module": "ConcDispMC", "cfg": disp_cfg([1, 2], defects=["erase_empty"]), "defect": "erase_empty"},
+                              {"module": "ConcDispMC", "cfg": disp_cfg([1, 2], defects=["lookup_unlocked"]), "defect": "lookup_unlocked"}],
             "rule": "ConcCL.tla (threads x micro-steps of callbacklist.h with the abstract list updated at the linearization points) model-checked over all "
                     "interleavings of the scenario sets; on the real CallbackList and EventDispatcher (std::map and std::unordered_map) every scenario "
                     "(all mixes of append/prepend/insert/remove/ownsHandle/empty/invoke/forEach with shared handles) is explored by depth-first "
